@@ -23,7 +23,7 @@ package output
 //@ axiom [callOff_mono] forall s Service, c int :: 0 <= c && c <= len(s.Calls) ==> callOff(s, c) >= len(s.Args)
 
 //@ func (Service).AllArgs pure
-//@   property C06 C07 C05
+//@   property C06 C07 C05 C16 C02 C04
 //@   ensures [sound @sound] forall q int :: 0 <= q && q < len(result) ==> isArgOf(s, result[q])
 //@   ensures [len @pos] len(result) == callOff(s, len(s.Calls)) + len(s.Fields)
 //@   ensures [complete_args @pos] forall j int :: 0 <= j && j < len(s.Args) ==> result[j] == s.Args[j]
